@@ -1,3 +1,317 @@
+// eng_server.rs — C19: the cache server returns exactly the requested content or a clean 404.
+// The ruler directory is produced by a simulated build/clean history; the real `serve()` builds
+// its real routes on SimSystem; hook H3 hands the composed filter to server_sim::drive_server,
+// which injects the request sequence in memory (warp::test) instead of listening on TCP.
+
 use super::*;
-pub fn run_one(_cfg : &Config, _seed : u64, _k : u64, _stats : &mut Stats) -> Vec<Found> { vec![] }
-pub fn replay(_case : &Case, _req : &Vec<(String, String)>) -> Vec<(String, String)> { vec![] }
+use crate::rule::Rule;
+use crate::ticket::TicketFactory;
+use super::super::hist::{cache_contents, cache_dir};
+use super::super::scen::RULER_DIR;
+use super::super::server_sim;
+use super::super::util::cache_name_of;
+
+const ALPHABET : &[u8; 62] = b"0123456789abcdefghijklmnopqrstuvwxyzABCDEFGHIJKLMNOPQRSTUVWXYZ";
+
+fn random_name(rng : &mut Rng) -> String
+{
+    // least significant digit first; keep the most significant digit small so the value fits 256 bits
+    let mut s : Vec<u8> = (0..42).map(|_| ALPHABET[rng.below(62) as usize]).collect();
+    s.push(ALPHABET[rng.below(1) as usize]);
+    String::from_utf8(s).unwrap()
+}
+
+fn hostile_paths(rng : &mut Rng, some_valid : &str) -> Vec<(String, String, &'static str)>
+{
+    let mut v : Vec<(String, String, &'static str)> = vec![];
+    let get = |p : String, class : &'static str| ("GET".to_string(), p, class);
+    v.push(get(format!("/files/{}", &some_valid[..42]), "short-name"));
+    v.push(get(format!("/files/{}0", some_valid), "long-name"));
+    v.push(get(format!("/files/{}", "Z".repeat(43)), "overflow"));
+    v.push(get(format!("/files/{}-", &some_valid[..42]), "foreign-character"));
+    v.push(get(format!("/files/{}%2F", &some_valid[..42]), "encoded-slash"));
+    v.push(get("/files/..%2F..%2Fbuild.rules".to_string(), "encoded-traversal"));
+    v.push(get("/files/%2e%2e%2f%2e%2e%2fREADME".to_string(), "encoded-traversal"));
+    v.push(get("/files/../../README".to_string(), "traversal"));
+    v.push(get("/files/".to_string(), "empty-segment"));
+    v.push(get("/files".to_string(), "no-segment"));
+    v.push(get(format!("/files/{}/extra", some_valid), "extra-segment"));
+    v.push(get(format!("/files//{}", some_valid), "empty-segment"));
+    v.push(get("/files/current_file_states".to_string(), "state-file-name"));
+    v.push(get(format!("/cache/{}", some_valid), "other-root"));
+    v.push(get(format!("/{}/cache/{}", RULER_DIR, some_valid), "other-root"));
+    v.push(get("/".to_string(), "root"));
+    v.push(get(format!("/rules/{}", some_valid), "rules-one-segment"));
+    v.push(get(format!("/rules/{}/{}", some_valid, &some_valid[..42]), "rules-short-source"));
+    v.push(get(format!("/rules/{}/{}", "Z".repeat(43), some_valid), "rules-overflow"));
+    v.push(get(format!("/rules/..%2Fcache/{}", some_valid), "rules-traversal"));
+    v.push(get(format!("/rules/{}/{}/x", some_valid, some_valid), "rules-extra-segment"));
+    v.push(("POST".to_string(), format!("/files/{}", some_valid), "other-method"));
+    v.push(("DELETE".to_string(), format!("/files/{}", some_valid), "other-method"));
+    v.push(("PUT".to_string(), format!("/rules/{}/{}", some_valid, some_valid), "other-method"));
+    // non-ASCII can only travel percent-encoded
+    v.push(get(format!("/files/{}%C3%A9", &some_valid[..41]), "non-ascii"));
+    v.push(get(format!("/files/{}%00", &some_valid[..42]), "encoded-nul"));
+    let n = rng.range(0, 4);
+    for _ in 0..n
+    {
+        let len = rng.range(0, 60);
+        let s : String = (0..len).map(|_| *rng.pick(&['a', 'Z', '0', '.', '-', '_', '~', '!', '$', '\'', '(', ')', '*', '+', ',', ';', '=', ':', '@'])).collect();
+        v.push(get(format!("/files/{}", s), "token-soup"));
+    }
+    v
+}
+
+pub struct Expect
+{
+    pub status_ok : Option<bool>,          // Some(true) = 200, Some(false) = 404, None = only "not a leak"
+    pub body : Option<Vec<u8>>,
+    pub class : String,
+}
+
+/* Run the history, then serve its ruler directory; `fixed_requests`: replay. */
+pub fn run_case(case : &Case, seed : u64, fixed_requests : Option<&Vec<(String, String)>>, mut stats : Option<&mut Stats>) -> (Vec<Violation>, Vec<(String, String)>)
+{
+    let mut out = vec![];
+    let mut runner = Runner::new(case);
+    while !runner.done()
+    {
+        if let Some(inv) = runner.step()
+        {
+            if let Some(s) = stats.as_deref_mut() { s.inc("c19.history_invocations"); }
+            runner.absorb(&inv);
+        }
+    }
+    let disk = runner.world.snapshot().0;
+
+    // reference model of the directory: independent listing of the simulated disk
+    let cache : BTreeMap<String, Vec<u8>> = cache_contents(&disk).into_iter()
+        .map(|(p, c)| (p[cache_dir().len() + 1..].to_string(), (*c).clone())).collect();
+    // recorded (rule, sources) pairs, named the way ruler's own client names them
+    let mut rule_pairs : BTreeMap<(String, String), Vec<u8>> = BTreeMap::new();
+    for (identity, by_sources) in runner.record.iter()
+    {
+        let rule_ticket = Rule::new(identity.0.clone(), identity.1.clone(), identity.2.clone()).get_ticket().human_readable();
+        for (srcs, outs) in by_sources.iter()
+        {
+            let mut f = TicketFactory::new();
+            for c in srcs.iter()
+            {
+                let mut ff = TicketFactory::new();
+                ff.input_bytes(c);
+                f.input_ticket(ff.result());
+            }
+            let body = outs.iter().map(|(_, b)| cache_name_of(b)).collect::<Vec<String>>().join("\n");
+            rule_pairs.insert((rule_ticket.clone(), f.result().human_readable()), body.into_bytes());
+        }
+    }
+    // everything that must never be served: files outside cache/ whose bytes are not also cached
+    let cached_bytes : BTreeSet<Vec<u8>> = cache.values().cloned().collect();
+    let secrets : Vec<(String, Vec<u8>)> = disk.image().files.into_iter()
+        .filter(|(p, c, _, _)| !p.starts_with(&format!("{}/", cache_dir())) && c.len() > 0 && !cached_bytes.contains(c))
+        .map(|(p, c, _, _)| (p, c)).collect();
+
+    // request sequence
+    let mut rng = Rng::derive(seed, 9);
+    let mut reqs : Vec<(String, String)> = vec![];
+    let mut classes : Vec<String> = vec![];
+    match fixed_requests
+    {
+        Some(r) => { reqs = r.clone(); classes = r.iter().map(|_| "replayed".to_string()).collect(); },
+        None =>
+        {
+            let some_valid = cache.keys().next().cloned().unwrap_or(random_name(&mut rng));
+            let mut valid : Vec<(String, String, String)> = vec![];
+            for name in cache.keys() { valid.push(("GET".to_string(), format!("/files/{}", name), "cached-hash".to_string())); }
+            for (r, s) in rule_pairs.keys() { valid.push(("GET".to_string(), format!("/rules/{}/{}", r, s), "recorded-pair".to_string())); }
+            // (state files are excluded from the *requests*: their byte order differs between
+            //  processes; they stay in the never-serve check below)
+            for (_, c) in secrets.iter().filter(|(p, _)| !p.starts_with(&format!("{}/", RULER_DIR))).take(12) { valid.push(("GET".to_string(), format!("/files/{}", cache_name_of(c)), "hash-of-uncached-file".to_string())); }
+            for _ in 0..4 { valid.push(("GET".to_string(), format!("/files/{}", random_name(&mut rng)), "absent-name".to_string())); }
+            for (r, _) in rule_pairs.keys().take(4) { valid.push(("GET".to_string(), format!("/rules/{}/{}", r, random_name(&mut rng)), "absent-sources".to_string())); }
+            for _ in 0..2 { valid.push(("GET".to_string(), format!("/rules/{}/{}", random_name(&mut rng), random_name(&mut rng)), "absent-rule".to_string())); }
+            rng.shuffle(&mut valid);
+            let hostile = hostile_paths(&mut rng, &some_valid);
+            // interleave: after every hostile request a valid one must still be answered
+            let mut hi = 0;
+            for (i, (m, p, c)) in valid.iter().enumerate()
+            {
+                reqs.push((m.clone(), p.clone())); classes.push(c.clone());
+                if i % 2 == 0 && hi < hostile.len()
+                {
+                    reqs.push((hostile[hi].0.clone(), hostile[hi].1.clone())); classes.push(hostile[hi].2.to_string());
+                    hi += 1;
+                }
+            }
+            while hi < hostile.len()
+            {
+                reqs.push((hostile[hi].0.clone(), hostile[hi].1.clone())); classes.push(hostile[hi].2.to_string());
+                hi += 1;
+                if let Some((m, p, c)) = valid.get(hi % std::cmp::max(1, valid.len()))
+                {
+                    reqs.push((m.clone(), p.clone())); classes.push(c.clone());
+                }
+            }
+        },
+    }
+
+    // only request-targets that can travel over HTTP at all
+    if fixed_requests.is_none()
+    {
+        let mut keep_r = vec![];
+        let mut keep_c = vec![];
+        for ((m, p), c) in reqs.iter().zip(classes.iter())
+        {
+            if p.parse::<warp::http::Uri>().is_ok() { keep_r.push((m.clone(), p.clone())); keep_c.push(c.clone()); }
+        }
+        reqs = keep_r;
+        classes = keep_c;
+    }
+
+    // serve
+    server_sim::set_plan(reqs.clone());
+    let sys = runner.world.system();
+    let served = std::panic::catch_unwind(std::panic::AssertUnwindSafe(|| crate::server::serve(sys, RULER_DIR, 0)));
+    let plan = server_sim::take_plan();
+    let responses = match (served, plan)
+    {
+        (Ok(Ok(())), Some(p)) if p.responses.len() == reqs.len() => p.responses,
+        (Err(_), _) =>
+        {
+            out.push(Violation{ prop : "C19", sig : "C19:server-panicked".to_string(), detail : "serve() panicked while answering the request sequence".to_string() });
+            return (out, reqs);
+        },
+        _ =>
+        {
+            out.push(Violation{ prop : "C19", sig : "C19:server-stopped".to_string(), detail : "serve() returned without answering every request".to_string() });
+            return (out, reqs);
+        },
+    };
+
+    let dir_class = format!("{}{}", if cache.len() > 0 { "cache+" } else { "nocache+" }, if rule_pairs.len() > 0 { "pairs" } else { "nopairs" });
+    for (i, ((method, path), (status, body))) in reqs.iter().zip(responses.iter()).enumerate()
+    {
+        let class = &classes[i];
+        if let Some(s) = stats.as_deref_mut()
+        {
+            s.inc("evaluations");
+            s.inc(&format!("c19.requests.{}", class));
+            s.digest_str(&format!("{} {} {}", method, path, status));
+            if cache.len() > 0 && rule_pairs.len() > 0
+            {
+                s.distinct.insert(H64::new().str(class).str(&dir_class).u64(*status as u64).get());
+            }
+        }
+        // expected answer from the reference model, from the path alone
+        let expected : Option<(u16, Option<Vec<u8>>)> =
+            if method != "GET" { None }
+            else if let Some(name) = path.strip_prefix("/files/")
+            {
+                match cache.get(name) { Some(c) => Some((200, Some(c.clone()))), None => Some((404, None)) }
+            }
+            else if let Some(rest) = path.strip_prefix("/rules/")
+            {
+                let parts : Vec<&str> = rest.split('/').collect();
+                if parts.len() == 2
+                {
+                    match rule_pairs.get(&(parts[0].to_string(), parts[1].to_string())) { Some(b) => Some((200, Some(b.clone()))), None => Some((404, None)) }
+                }
+                else { Some((404, None)) }
+            }
+            else { Some((404, None)) };
+
+        match &expected
+        {
+            Some((200, Some(b))) =>
+            {
+                if *status != 200
+                {
+                    out.push(Violation{ prop : "C19", sig : format!("C19:present-but-{}:{}", status, if path.starts_with("/files/") { "file" } else { "rule" }),
+                        detail : format!("request {} {} {}: expected 200 with {} bytes, got status {}", i, method, path, b.len(), status) });
+                }
+                else if body != b
+                {
+                    out.push(Violation{ prop : "C19", sig : format!("C19:wrong-body:{}", if path.starts_with("/files/") { "file" } else { "rule" }),
+                        detail : format!("request {} {} {}: expected body {}, got {}", i, method, path, super::super::util::show_bytes(b), super::super::util::show_bytes(body)) });
+                }
+            },
+            Some((404, _)) =>
+            {
+                if *status != 404
+                {
+                    out.push(Violation{ prop : "C19", sig : format!("C19:absent-or-malformed-but-{}:{}", status, class),
+                        detail : format!("request {} {} {}: expected 404, got status {} with body {}", i, method, path, status, super::super::util::show_bytes(body)) });
+                }
+            },
+            _ => {},
+        }
+        // nothing outside cache/ and history/ is ever served
+        if *status == 200
+        {
+            for (p, c) in secrets.iter()
+            {
+                if c == body && !p.starts_with(&format!("{}/history/", RULER_DIR))
+                {
+                    out.push(Violation{ prop : "C19", sig : "C19:served-file-outside-cache".to_string(),
+                        detail : format!("request {} {} {}: the response body is the content of {}", i, method, path, p) });
+                }
+            }
+        }
+    }
+    if let Some(s) = stats.as_deref_mut()
+    {
+        s.end_run();
+        s.add("c19.cache_entries_served", cache.len() as u64);
+        s.add("c19.recorded_pairs_served", rule_pairs.len() as u64);
+        s.inc(&format!("c19.directory.{}", dir_class));
+    }
+    (out, reqs)
+}
+
+pub fn replay(case : &Case, requests : &Vec<(String, String)>) -> Vec<(String, String)>
+{
+    run_case(case, 0, Some(requests), None).0.into_iter().map(|v| (v.sig, v.detail)).collect()
+}
+
+pub fn run_one(cfg : &Config, seed : u64, k : u64, stats : &mut Stats) -> Vec<Found>
+{
+    let mut rng = Rng::derive(seed, 6);
+    let mut g = GenCfg::base(cfg.thorough);
+    g.max_rules = rng.range(1, if cfg.thorough { 10 } else { 6 });
+    g.max_ops = if cfg.thorough { 10 } else { 6 };
+    g.min_ops = 2;
+    g.failing = rng.chance(1, 4);
+    g.cleans = *rng.pick(&[10u64, 20, 30]);
+    g.shared_pool = rng.chance(1, 2);
+    g.policy_sched = Some(Strategy::Serial);
+    let case = Gen::new(seed, g).case();
+    if k < 3 * cfg.workers { stats.sample(case.to_j().set("then", J::s("serve .ruler and replay the generated request sequence (cached hashes, recorded pairs, absent and hostile names)"))); }
+
+    let (vs, reqs) = run_case(&case, seed, None, Some(stats));
+    let mut found = vec![];
+    let mut seen = BTreeSet::new();
+    for v in vs
+    {
+        if !seen.insert(v.sig.clone()) { continue; }
+        // minimise the request list (the history is kept: it produced the directory)
+        let mut best = reqs.clone();
+        let mut i = best.len();
+        let mut budget = 200;
+        while i > 0 && budget > 0
+        {
+            i -= 1;
+            budget -= 1;
+            let mut cand = best.clone();
+            cand.remove(i);
+            if run_case(&case, seed, Some(&cand), None).0.iter().any(|x| x.sig == v.sig) { best = cand; }
+        }
+        let detail = run_case(&case, seed, Some(&best), None).0.into_iter().find(|x| x.sig == v.sig).map(|x| x.detail).unwrap_or(v.detail.clone());
+        found.push(Found
+        {
+            prop : "C19".to_string(), sig : v.sig.clone(), detail : detail,
+            explain : case.to_j().set("requests", J::Arr(best.iter().map(|(m, p)| J::Str(format!("{} {}", m, p))).collect())),
+            replay : Replay::Server{ case : case.clone(), requests : best },
+        });
+    }
+    found
+}
